@@ -25,3 +25,10 @@ func (r *Replica) VerifDeliver(m *replication_proto.WALStreamResponse) error {
 
 // VerifExpectedNext returns the sequence the replica would request next.
 func (r *Replica) VerifExpectedNext() uint64 { return r.batchApplier.GetExpectedNext() }
+
+// VerifReplica returns the replica node a manager in replica mode runs (nil otherwise).
+func (m *Manager) VerifReplica() *Replica {
+	m.mu.RLock()
+	defer m.mu.RUnlock()
+	return m.replica
+}
